@@ -235,18 +235,18 @@ Lemma select_poll_k s li d sel cs' :
   let a := select_poll c li (length (calls s)) (height s) (now s) d (entry_ (pl s)) sel (next_att (pl s)) in
   a_cancel a = [] /\ next_att (pl s) <= a_att a /\ clean_entry (a_entry a) /\
   k_ok (nd s) (cancel_calls (a_cancel a) cs' ++ mk_calls (a_new a)) (a_att a) (now s) (a_pc a) /\
-  forall h m, ~ In (OResp h (Fail m)) (a_out a).
+  forall h r, ~ In (OResp h r) (a_out a).
 Proof.
   intros HK Hlen. cbv zeta. destruct (entry_ (pl s)) as [en|] eqn:He.
   2:{ unfold select_poll, stay. cbn [a_cancel a_att a_entry a_pc a_new a_out k_ok].
-      split; [reflexivity|]. split; [lia|]. split; [intros en0 H0; discriminate|]. split; [exact I|intros h m H0; exact H0]. }
+      split; [reflexivity|]. split; [lia|]. split; [intros en0 H0; discriminate|]. split; [exact I|intros h r H0; exact H0]. }
   destruct (k_entry s HK en He) as (E1 & E2 & E3 & E4).
   destruct (select_poll_clean_cases li (length (calls s)) (height s) (now s) d en sel (next_att (pl s)) E1) as [->|(am & mf & md & ->)].
   - unfold stay. cbn [a_cancel a_att a_entry a_pc a_new a_out k_ok].
-    split; [reflexivity|]. split; [lia|]. split; [rewrite <- He; exact (k_entry s HK)|]. split; [exact I|intros h m H0; exact H0].
+    split; [reflexivity|]. split; [lia|]. split; [rewrite <- He; exact (k_entry s HK)|]. split; [exact I|intros h r H0; exact H0].
   - cbn [a_cancel a_att a_entry a_pc a_new a_out]. split; [reflexivity|]. split; [lia|]. split.
     + apply clean_set_queues. rewrite <- He. exact (k_entry s HK).
-    + split; [|intros h m H; exact H]. cbn [cancel_calls fold_left]. rewrite <- Hlen.
+    + split; [|intros h r H; exact H]. cbn [cancel_calls fold_left]. rewrite <- Hlen.
       cbn [k_ok]. split; [lia|]. split.
       * destruct (mem_att (next_att (pl s)) (atts (nd s))) eqn:Em; [|reflexivity]. pose proof (k_atts s HK _ Em). lia.
       * split.
@@ -274,7 +274,7 @@ Definition shape_kgoal (s : sys) (cid : nat) (sh : lres) : Prop :=
   match sh with
   | LKeep p' new _ cn => k_ok (nd s) (cancel_calls cn (set_status cid Delivered (calls s)) ++ mk_calls new) (next_att (pl s)) (now s) p'
   | LResolve r p' new cn =>
-      k_ok (nd s) (cancel_calls cn (set_status cid Delivered (calls s)) ++ mk_calls new) (next_att (pl s)) (now s) p' /\ forall m, r <> Fail m
+      k_ok (nd s) (cancel_calls cn (set_status cid Delivered (calls s)) ++ mk_calls new) (next_att (pl s)) (now s) p' /\ exists pr, r = Resolve pr
   | LSelect d => d <> 0
   end.
 
@@ -303,7 +303,7 @@ Proof.
     destruct v as [[[|a t|pr|] g]|]; inversion Hsh; subst sh; cbn [shape_kgoal k_ok].
     + exact mpp_pos.
     + exact (Hk a t g Hst).
-    + split; [exact I|intros m; discriminate].
+    + split; [exact I|eauto].
     + exfalso. exact (Hng g eq_refl).
     + exact mpp_pos.
   - (* PWait *)
@@ -317,7 +317,7 @@ Proof.
     destruct (wait_deliver (length (calls s)) w cid y) as [[w' nw|r cn0]|] eqn:Ew; [| |discriminate].
     + inversion Hsh; subst sh. cbn [shape_kgoal k_ok]. exact Hk.
     + destruct r as [pr| |]; inversion Hsh; subst sh; cbn [shape_kgoal shape_succeed k_ok].
-      * split; [|intros m; discriminate]. unfold PInv in HP. cbn [ps_st res_of_wait ps_nd] in HP. exact HP.
+      * split; [|eauto]. unfold PInv in HP. cbn [ps_st res_of_wait ps_nd] in HP. exact HP.
       * split; [exact Hk|]. intros y0 Hy0. rewrite st_of_tbl_new in Hy0. discriminate.
       * exact I.
   - (* PMarkF1 *)
@@ -334,7 +334,7 @@ Proof.
     intros y0 Hy0. rewrite st_of_tbl_new in Hy0. discriminate.
   - (* PPay *)
     destruct (Hk y Hst) as (p0 & ->). cbn [pay_reply] in Hsh. inversion Hsh; subst sh. cbn [shape_kgoal shape_succeed k_ok].
-    split; [|intros m; discriminate]. destruct Hlc as (_ & Hm). rewrite Hst in Hm. exact (proj2 Hm).
+    split; [|eauto]. destruct Hlc as (_ & Hm). rewrite Hst in Hm. exact (proj2 Hm).
   - (* PMS1 *) destruct y; inversion Hsh; subst sh; cbn [shape_kgoal k_ok]; exact I.
   - (* PMS2 *) inversion Hsh; subst sh; cbn [shape_kgoal k_ok]; exact I.
   - destruct Hk.
@@ -607,15 +607,15 @@ Proof.
   - apply in_map_iff in H as (? & H & _). discriminate.
 Qed.
 
-Theorem coop_step_never_fails s ev h m :
-  wreach true c s -> K s -> ev_coop ev -> ~ In (OResp h (Fail m)) (snd (step c s ev)).
+Theorem coop_step_only_settles s ev h r :
+  wreach true c s -> K s -> ev_coop ev -> In (OResp h r) (snd (step c s ev)) -> exists pr, r = Resolve pr.
 Proof.
   intros Hw HK Hev Hin. destruct (wreach_inv true c s Hw) as (_ & HC & HO & HN). pose proof (wreach_U true c s Hw) as HU.
   destruct ev as [h0|sel|cid f|cid sel|pid st|cid|cid o|dt|h0|]; cbn [ev_coop] in Hev; cbn [step] in Hin; try (destruct Hin; fail).
   - destruct (entry_ (pl s)) as [e|] eqn:He; [destruct Hin|destruct Hin as [Hin|[]]; discriminate].
   - destruct (find_select 0 (lcs (pl s))) as [[[i d] li]|] eqn:Hf; [|destruct Hin].
     apply apply_adv_resp_in in Hin.
-    exact (proj2 (proj2 (proj2 (proj2 (select_poll_k s li d sel (calls s) HK eq_refl)))) h m Hin).
+    exfalso. exact (proj2 (proj2 (proj2 (proj2 (select_poll_k s li d sel (calls s) HK eq_refl)))) h r Hin).
   - destruct (nth_error (calls s) cid) as [cl|]; [|destruct Hin]. destruct (c_st cl); try (destruct Hin; fail).
     destruct (node_exec (nd s) (c_rpc cl) f). destruct Hin.
   - destruct (nth_error (calls s) cid) as [cl|] eqn:Hcl; [|destruct Hin]. destruct (c_st cl) eqn:Hst; try (destruct Hin; fail).
@@ -625,34 +625,38 @@ Proof.
     rewrite lc_deliver_shape in Hdl. destruct (lc_shape c (l_info x) (length (calls s)) (now s) (l_pc x) cid y) as [sh|] eqn:Hsh; [|discriminate].
     cbn [option_map] in Hdl. inversion Hdl; subst a; clear Hdl.
     pose proof (shape_k s i x cid cl y sh HU HC HO HN HK Hx Hcl Hst Hsh) as Hg.
-    destruct sh as [p' new out cancel|r p' new cancel|d]; cbn [adv_of] in Hin; cbn [shape_kgoal] in Hg.
-    + cbn [a_out] in Hin. pose proof (lc_shape_keep_out _ _ _ _ _ _ _ _ _ _ _ Hsh) as Hno.
-      assert (H : In (OResp h (Fail m)) (resps out)) by (apply filter_In; split; [exact Hin|reflexivity]). rewrite Hno in H. destruct H.
+    destruct sh as [p' new out cancel|r0 p' new cancel|d]; cbn [adv_of] in Hin; cbn [shape_kgoal] in Hg.
+    + exfalso. cbn [a_out] in Hin. pose proof (lc_shape_keep_out _ _ _ _ _ _ _ _ _ _ _ Hsh) as Hno.
+      assert (H : In (OResp h r) (resps out)) by (apply filter_In; split; [exact Hin|reflexivity]). rewrite Hno in H. destruct H.
     + unfold do_resolve in Hin. destruct (entry_ (pl s)) as [en|]; cbn [a_out] in Hin; [|destruct Hin as [H|[]]; discriminate].
-      rewrite app_nil_r in Hin. unfold resolve_outs in Hin. apply in_map_iff in Hin as (h1 & Hh1 & _). inversion Hh1; subst r.
-      exact (proj2 Hg m eq_refl).
-    + rewrite (enter_select_nz _ _ _ _ _ _ _ _ Hg) in Hin.
-      exact (proj2 (proj2 (proj2 (proj2 (select_poll_k s (l_info x) (now s + d) sel (calls s) HK eq_refl)))) h m Hin).
+      rewrite app_nil_r in Hin. unfold resolve_outs in Hin. apply in_map_iff in Hin as (h1 & Hh1 & _). inversion Hh1; subst r0.
+      exact (proj2 Hg).
+    + exfalso. rewrite (enter_select_nz _ _ _ _ _ _ _ _ Hg) in Hin.
+      exact (proj2 (proj2 (proj2 (proj2 (select_poll_k s (l_info x) (now s + d) sel (calls s) HK eq_refl)))) h r Hin).
   - destruct (nth_error (parts (nd s)) pid) as [[]|], st; destruct Hin.
   - destruct (nth_error (calls s) cid) as [[q st]|]; [|destruct Hin]. destruct q; try (destruct Hin; fail). destruct st; destruct Hin.
   - destruct (nth_error (calls s) cid) as [[q st]|]; [|destruct Hin]. destruct q; try (destruct Hin; fail). destruct st; destruct Hin.
   - destruct Hev.
 Qed.
 
+Theorem coop_step_never_fails s ev h m :
+  wreach true c s -> K s -> ev_coop ev -> ~ In (OResp h (Fail m)) (snd (step c s ev)).
+Proof. intros Hw HK Hev Hin. destruct (coop_step_only_settles s ev h (Fail m) Hw HK Hev Hin) as (pr & H). discriminate. Qed.
+
 (* ---------- every cooperative history ---------- *)
 Lemma coop_run_inv : forall evs s,
   wreach true c s -> K s -> hist_wf true c s evs -> Forall ev_coop evs ->
   (wreach true c (fst (run c s evs)) /\ K (fst (run c s evs))) /\
-  forall o h m, In o (snd (run c s evs)) -> ~ In (OResp h (Fail m)) o.
+  forall o h r, In o (snd (run c s evs)) -> In (OResp h r) o -> exists pr, r = Resolve pr.
 Proof.
   induction evs as [|ev r IH]; intros s Hw HK Hwf Hco; cbn [run].
-  - split; [split; assumption|]. intros o h m [].
+  - split; [split; assumption|]. intros o h r0 [].
   - destruct Hwf as (H1 & H2). inversion Hco as [|? ? Hc1 Hc2]; subst.
     pose proof (wr_step true c s ev Hw H1) as Hw1. pose proof (K_step s ev Hw HK Hc1) as HK1.
-    pose proof (coop_step_never_fails s ev) as NF.
+    pose proof (coop_step_only_settles s ev) as NF.
     destruct (step c s ev) as [s1 o1] eqn:Est. cbn [fst snd] in *.
     destruct (IH s1 Hw1 HK1 H2 Hc2) as (A & Bn). destruct (run c s1 r) as [s2 os]. cbn [fst snd] in *.
-    split; [exact A|]. intros o h m [<-|Hin]; [exact (NF h m Hw HK Hc1)|exact (Bn o h m Hin)].
+    split; [exact A|]. intros o h r0 [<-|Hin]; [exact (NF h r0 Hw HK Hc1)|exact (Bn o h r0 Hin)].
 Qed.
 
 Theorem coop_runs_never_fail n t0 h0 a0 evs :
@@ -661,6 +665,17 @@ Theorem coop_runs_never_fail n t0 h0 a0 evs :
   (forall a t g, ds n = Some (DPending a t, g) -> a < a0 /\ t0 - t < mpp_ms c) ->
   hist_wf true c (sys_start n t0 h0 a0) evs -> Forall ev_coop evs ->
   forall o h m, In o (snd (run c (sys_start n t0 h0 a0) evs)) -> ~ In (OResp h (Fail m)) o.
+Proof.
+  intros Hn Ha Hd Hwf Hco o h m Ho Hin.
+  destruct (proj2 (coop_run_inv evs _ (wr_start true c n t0 h0 a0 Hn) (K_start n t0 h0 a0 Ha Hd) Hwf Hco) o h (Fail m) Ho Hin) as (pr & H). discriminate.
+Qed.
+
+Theorem coop_runs_only_settle n t0 h0 a0 evs :
+  node_ok n ->
+  (forall a, mem_att a (atts n) = true -> a < a0) ->
+  (forall a t g, ds n = Some (DPending a t, g) -> a < a0 /\ t0 - t < mpp_ms c) ->
+  hist_wf true c (sys_start n t0 h0 a0) evs -> Forall ev_coop evs ->
+  forall o h r, In o (snd (run c (sys_start n t0 h0 a0) evs)) -> In (OResp h r) o -> exists pr, r = Resolve pr.
 Proof.
   intros Hn Ha Hd Hwf Hco.
   exact (proj2 (coop_run_inv evs _ (wr_start true c n t0 h0 a0 Hn) (K_start n t0 h0 a0 Ha Hd) Hwf Hco)).
